@@ -40,12 +40,13 @@ Inductive decl :=
   | DPou (name : N) (insts : list N)       (* FUNCTION_BLOCK / PROGRAM / FUNCTION with variables of named types *)
   | DLeaf (name : N).                      (* a type that refers to nothing (enumeration values, ...) *)
 
-(* add_edge(depends_on, this) for aliases; add_edge(from, to) for elements and instances *)
+(* every edge runs from what is depended on to what depends on it: add_edge(depends_on, this) for aliases,
+   add_edge(to, from) for elements and instances (from: the structure or unit, to: the type of the element or instance) *)
 Definition edges_of (d : decl) : list edge :=
   match d with
   | DAlias n b => [(b, n)]
-  | DStruct n es => map (fun e => (n, e)) es
-  | DPou n is => map (fun i => (n, i)) is
+  | DStruct n es => map (fun e => (e, n)) es
+  | DPou n is => map (fun i => (i, n)) is
   | DLeaf _ => []
   end.
 Definition names_of (d : decl) : list N :=
